@@ -77,6 +77,27 @@ def run(ctx):
     okdeep = any(pf in depends(cc, c)[0] and any(x.get("k") == "ref" and x.get("dk") == "param" for x in walk(facts.expand(cc, c))) for c in mk)
     res.check(okdeep, "C14-R2", "Packet(const Packet&):clone", cc.loc, "payload cloned with make_unique from the source's payload",
               "copy constructor does not allocate a new payload from the source's payload (shallow copy)")
+    # ... and so does every other place that gives the packet a payload from a Payload object (setPayload): the stored object is a copy made by
+    # Payload's copy constructor — not a rebuild from (type, bytes, length), which is the decoder's constructor and treats some types specially
+    for wf in fb.all_functions():
+        if wf.rec != PKT or not wf.body or wf is cc:
+            continue
+        for d, kind, n in facts.writes_of(wf):
+            if d != pf or not isinstance(n, dict):
+                continue
+            mks = [x for x in walk(n) if x.get("k") == "call" and (callee_name(x) or "").startswith("std::make_unique")]
+            for mk in mks:
+                args = mk.get("args", [])
+                from_payload_param = any(p0["t"].get("rec") in (PAY,) or (p0["t"].get("rec") or "") in fb.derived_from(PAY)
+                                         for p0 in wf.params if p0["decl"] in facts.reads(mk))
+                if not from_payload_param:
+                    continue
+                okc = len(args) == 1 and ((strip_all_casts(args[0]).get("t") or {}).get("rec") == PAY or
+                                          (strip_all_casts(args[0]).get("t") or {}).get("rec") in fb.derived_from(PAY))
+                res.check(okc, "C14-R2", "%s:stores-a-copy" % wf.name.replace("ASAM::CMP::", ""), mk.get("loc"),
+                          "the payload handed in is stored as a copy made by Payload's copy constructor",
+                          "%s rebuilds the payload it is given from its parts (`%s`) instead of copying it: where that constructor treats a type "
+                          "specially (bytes not kept for `invalid`), the stored payload differs from the one handed in" % (wf.name, canon(mk)[:80]))
     # ---- swap
     sw = fb.fn("ASAM::CMP::swap", 2)
     swapped = set()
